@@ -62,7 +62,7 @@ impl Check for C02 {
             }
         } else {
             // faults biased to payload bytes and size-preserving edits keep many streams in scope
-            let io_o = InputOpts { doc, faulted_pct: 35, truncated_pct: 10, random_pct: 0, soup_pct: 0, max_faults: 2 };
+            let io_o = InputOpts { doc, faulted_pct: 35, truncated_pct: 10, random_pct: 0, soup_pct: 0, max_faults: 2, mid_document_pct: 5 };
             let gi = cases::gen_input(&mut rng, &spec, &io_o, &mut fs);
             (gi.bytes, gi.class)
         };
